@@ -163,12 +163,31 @@ def catalog(form, case, default_ns):
         integrations = list(ints)
     else:
         integrations = [{'name': n, 'type': 'data'} for n in ints]
-        if form in (2, 4):
+        if form in (2, 4, 7):
+            # (with `project.model` keys the legacy dict does not declare the project itself: form 7 declares it here)
             integrations.append({'name': 'proj', 'type': 'project'})
-    pm = model_metadata(case, variant=form in (1, 3, 4))
+    if form == 6:
+        # names and dicts mixed, names not in lower case
+        integrations = ['INT1', {'name': 'Int2', 'type': 'data'}, 'int3', {'name': 'Proj', 'type': 'project'}]
+    if form == 9:
+        integrations = [{'name': n, 'type': 'data'} for n in ints] + [{'name': 'proj', 'type': 'project'}, {'name': 'mindsdb', 'type': 'project'}]
+    pm = model_metadata(case, variant=form in (1, 3, 4, 8))
+    kw = {}
     if form in (3, 5):
         pm = {m['name']: m for m in pm}
-    kw = dict(integrations=integrations, predictor_metadata=pm)
+    if form == 7:
+        # legacy dict whose keys carry the project (`project.model`, lower case)
+        pm = {(m.get('integration_name', 'mindsdb') + '.' + m['name']).lower(): m for m in pm}
+    if form == 8:
+        # the project is not stored with the model but given as the (legacy) predictor namespace
+        projs = {m.get('integration_name', 'mindsdb') for m in pm if m['name'] in case.models}
+        if len(projs) == 1:
+            ns = projs.pop()
+            pm = [dict((k, v) for k, v in m.items() if k != 'integration_name' or m['name'] not in case.models) for m in pm]
+            kw['predictor_namespace'] = ns.upper()
+    if form == 9 and not case.models:
+        pm = None
+    kw.update(integrations=integrations, predictor_metadata=pm)
     if default_ns:
         kw['default_namespace'] = default_ns
     return kw
@@ -306,13 +325,13 @@ def run_shard(ctx):
             break
         base_seed = core.digest(ctx.seed, 'C10', i)
         kind = None
-        form0 = i % 6
+        form0 = i % 10
         default_ns = [None, 'mindsdb', 'int1'][i % 3]
         maps = {}
         for style in styles:
             r = core.rng_for(base_seed, 'shape')        # same shape, different qualifier spelling
             text, case = build(r, style, kind)
-            for form in ({form0, (form0 + 3) % 6} if style == 'lower' else {form0}):
+            for form in ({form0, (form0 + 3) % 10, (form0 + 7) % 10} if style == 'lower' else {form0}):
                 acc.ev()
                 try:
                     q = parse_sql(text, 'mindsdb')
